@@ -645,6 +645,6 @@ func init() {
 		Level:       "other",
 		Explanation: "Structural necessary conditions of the size-class selection protocol, decided on all paths: Selector gets exactly one of Select/Abandoned; the task's learner gets exactly one terminal call and the field is replaced; a background learner is abandoned or handed to exactly one task; every learner method releases its statistics handle exactly once or hands it to its successor, never clean after a mutation; background runs are uncacheable, bounded, waiter-less; retry goes to the largest size class; the write-back version counter is monotone, writtenVersion only takes the captured version, and dequeued handles are always put back. Numeric validity of choices (probabilities, timeouts) and eventual write are not decided.",
 		Assumptions: []string{"floating-point strategy computation is opaque", "handles are only released through PreviousExecutionStatsHandle.Release"},
-		Rules:       []RuleFunc{c07Selector, c07Learner, c07Handle, c07Background, c07Version, c07Requeue, c07TimeoutCap, schedFailedByWorker, c07SwapRemove, c07RemoveAtZero, c07TimeoutNonNegative, c07QueueOnce},
+		Rules:       []RuleFunc{c07Selector, c07Learner, c07Handle, c07Background, c07Version, c07Requeue, c07TimeoutCap, schedFailedByWorker, c07SwapRemove, c07RemoveAtZero, c07TimeoutNonNegative, c07QueueOnce, c07FreshHandleAccounted},
 	})
 }
